@@ -1,6 +1,6 @@
 (* C11 — property theorems (statements only; proofs live in Proofs.v; vocabulary in Spec.v / Model.v). *)
 From Coq Require Import List NArith Bool.
-Require Import QV.C11.Model QV.C11.Spec QV.C11.Proofs QV.C11.Proofs_load QV.C11.Proofs_kill QV.C11.Guard QV.C11.Proofs_guard QV.C11.Proofs_exact QV.C11.Proofs_tight QV.C11.Repair QV.C11.Proofs_repair QV.C11.Proofs_audit QV.C11.Proofs_bad.
+Require Import QV.C11.Model QV.C11.Spec QV.C11.Proofs QV.C11.Proofs_load QV.C11.Proofs_kill QV.C11.Guard QV.C11.Proofs_guard QV.C11.Proofs_exact QV.C11.Proofs_tight QV.C11.Repair QV.C11.Proofs_repair QV.C11.Proofs_audit QV.C11.Proofs_bad QV.C11.Proofs_clash.
 Import ListNotations.
 Open Scope N_scope.
 
@@ -437,3 +437,37 @@ Theorem C11_unserializable_nonvacuous :
   forall b, plan_of2 current b (disk_of ex_store) ex_cache (OOverwrite bad_tmpl) = PErr EUnser.
 Proof. exact unserializable_nonvacuous. Qed.
 Print Assumptions C11_unserializable_nonvacuous.
+
+(* Round 6 — the clause "an identifier clash" as a statement about TEMPLATES (until round 5 only the definition of
+   collect2 said which templates clash).  For every storage, cache, backend: a template in which two DIFFERENT objects
+   (different identities) carry the same identifier anywhere, whose named nodes below the root are new (the root
+   identifier itself may exist: overwrite) and whose identities are coherent (the same identifier + identity = the same
+   Python object = the same named objects below it), is rejected by overwrite - with EClash when nothing
+   un-serializable is in it - and by store when the root identifier is new as well; the disk is the same disk after
+   every interruption.  NOT covered: a clash with a cached / stored child (another object cached under the identifier,
+   identifier stored but not cached), the replacement that contains the stored object it replaces (R2): tested only. *)
+Theorem C11_clash_rejected : forall v b d c T,
+  dup_clashb T = true -> coherent_subb T = true -> new_belowb (keys (view d)) c T = true ->
+  (exists e, plan_of2 v b d c (OOverwrite T) = PErr e /\ (has_bad T = false -> e = EClash)) /\
+  (in_storage (keys (view d)) c (nid_of T) = false ->
+   exists e, plan_of2 v b d c (OStore T) = PErr e /\ (has_bad T = false -> e = EClash)) /\
+  forall ck k, after_crash ck b (steps_of (plan_of2 v b d c (OOverwrite T))) k d = d /\
+               (in_storage (keys (view d)) c (nid_of T) = false ->
+                after_crash ck b (steps_of (plan_of2 v b d c (OStore T))) k d = d).
+Proof. exact clash_rejected. Qed.
+Print Assumptions C11_clash_rejected.
+
+Theorem C11_clash_nonvacuous :
+  dup_clashb (clash_tmpl 0) = true /\ dup_clashb (clash_tmpl 4) = true /\ has_bad (clash_tmpl 0) = false /\
+  coherent_subb (clash_tmpl 0) = true /\ coherent_subb (clash_tmpl 4) = true /\
+  new_belowb (keys (view (disk_of ex_store))) ex_cache (clash_tmpl 0) = true /\
+  new_belowb (keys (view (disk_of ex_store))) ex_cache (clash_tmpl 4) = true /\
+  in_storage (keys (view (disk_of ex_store))) ex_cache 0 = true /\
+  in_storage (keys (view (disk_of ex_store))) ex_cache 4 = false /\
+  (forall b, plan_of2 current b (disk_of ex_store) ex_cache (OOverwrite (clash_tmpl 0)) = PErr EClash) /\
+  (forall b, plan_of2 current b (disk_of ex_store) ex_cache (OStore (clash_tmpl 4)) = PErr EClash) /\
+  (forall b, exists s c', plan_of2 current b (disk_of ex_store) ex_cache
+     (OOverwrite (Node 4 1 1 [Node 5 2 2 [Node 7 4 4 []]; Node 6 3 3 [Node 5 2 2 [Node 7 4 4 []]]])) = PSteps s c'
+     /\ s <> []).
+Proof. exact clash_nonvacuous. Qed.
+Print Assumptions C11_clash_nonvacuous.
